@@ -8,6 +8,9 @@ from .core import AnalysisError
 from . import pyxfront
 
 
+MODULE_OF = {}
+
+
 class Mod:
     def __init__(self, repo, rel):
         self.rel = rel
@@ -29,6 +32,8 @@ class Mod:
         self.classes = {}     # name -> ClassDef
         self.parents = {}
         self._index(self.tree, "")
+        for f_ in self.functions.values():
+            MODULE_OF[id(f_)] = self        # which module a function node belongs to (the evaluators inline private helpers of the same module)
         canonical_locals(self)
         for n in ast.walk(self.tree):
             for c in ast.iter_child_nodes(n):
